@@ -318,6 +318,17 @@ Definition step (w : world) (e : event) : world * string :=
     match live_inst w i with
     | None => (w, "invalid")
     | Some it =>
+      match matcher_panics (w_cfg w) (w_state w) m a with
+      | Some sp =>
+        (* the matcher (user code) panics: the scope owning the instance is left by unwinding *)
+        let w1 := set_state w sp in
+        let x1 := {| x_other_thread := x_other_thread x; x_unwinding := true |} in
+        (kill w1 i it,
+         match drop_panic hinfo (w_bc w1) (w_cfg w1) sp x1 it (count_after_release (w_insts w1) it) with
+         | None => "P:user:matcher"
+         | Some _ => "ABORT"
+         end)
+      | None =>
       let '(s', act) := call hinfo N haccepts hdebug (w_cfg w) (w_state w) m a in
       let w1 := after_call w i it s' act in
       match nth_opt (w_insts w1) i with
@@ -330,6 +341,7 @@ Definition step (w : world) (e : event) : world * string :=
         (kill w1 i it1,
          if unwinding then match r with None => show_call w m a act | Some _ => "ABORT" end
          else show_call w m a act ++ "|" ++ show_panic r)
+      end
       end
     end
   | BLend i =>
